@@ -480,7 +480,7 @@ fn name_of(len: usize) -> String {
 fn build(_prop: &str, tier: &str) -> Fonts {
     let thorough = tier == "thorough";
     let mut jobs = Vec::new();
-    let seeds: Vec<u8> = if thorough { vec![1, 3, 7, 11, 13, 37, 101, 255] } else { vec![1, 7] };
+    let seeds: Vec<u8> = if thorough { vec![1, 3, 7, 9, 13, 37, 101, 255, 2, 64, 128, 200] } else { vec![1, 3, 7, 13, 37, 255] };
     for h in 1..=32u8 {
         for s in &seeds {
             jobs.push(Job::Bit(FontSrc::Synth(h, *s)));
